@@ -1,7 +1,7 @@
 /-
-C15 — defect D14 and the gzip data-error defect, on the model of the code **as it is without**
-`fixes/C15-xfrm-flush-eof.patch` / `fixes/C15-gzip-data-error.patch` (`Sqfs/Model/XfrmOld.lean`; `istream.c` and
-`ostream.c` are the same in both trees).  Each theorem is the negation of a clause of the property, with a concrete
+C15 — defect D14 and the gzip data-error defect, on the model of the code **as it was before** fix commits `8eb5186` /
+`7b3a56e` of /repo (= without `fixes/C15-xfrm-flush-eof.patch` / `fixes/C15-gzip-data-error.patch`; `Sqfs/Model/XfrmOld.lean`;
+`istream.c` and `ostream.c` are the same in both trees).  Each theorem is the negation of a clause of the property, with a concrete
 witness; the same inputs are replayed on the real code by the check (fake-library harness and tool-level runs).
 The library underneath is the toy engine of `Sqfs/Model/Xfrm.lean` behind a zlib-style or zstd-style interface, with the most
 restrictive knobs (one byte in, one byte out per library call).
